@@ -33,6 +33,23 @@ fn c05c_aspa_guards_3_providers() {
     std::mem::forget(d);
 }
 
+// vk: tier=thorough; timeout=1800; bound=exactly 4 providers, all 32-bit AS numbers
+#[kani::proof]
+#[kani::unwind(7)]
+fn c05c_aspa_guards_4_providers() {
+    let c: u32 = kani::any();
+    let p: [u32; 4] = kani::any();
+    let d = AspaDefinition { customer: asn(c), providers: vec![asn(p[0]), asn(p[1]), asn(p[2]), asn(p[3])] };
+    let used = p[0] == c || p[1] == c || p[2] == c || p[3] == c;
+    let dup = p[0] == p[1] || p[0] == p[2] || p[0] == p[3] || p[1] == p[2] || p[1] == p[3] || p[2] == p[3];
+    assert!(d.customer_used_as_provider() == used);
+    assert!(d.contains_duplicate_providers() == dup);
+    kani::cover!(used && !dup);
+    kani::cover!(p[0] == p[3] && p[0] != p[1] && p[1] != p[2] && p[0] != p[2]);
+    kani::cover!(!used && !dup);
+    std::mem::forget(d);
+}
+
 // vk: bound=exactly 2 providers and exactly 1 provider
 #[kani::proof]
 #[kani::unwind(5)]
